@@ -483,8 +483,10 @@ package mqtt
 // C25: a message without expiry time gets one from its message expiry interval, capped by the server maximum
 //@ callsite mqtt.Server.publishToClient C25-routed-message-has-its-expiry-time: pk0.Expiry != 0 ==> arg3.Expiry == pk0.Expiry
 // verif:loop mqtt.Server.publishToSubscribers 1
+//@ entry C40-the-inline-subscriptions-of-the-result-are-the-ones-called: rangemap1 == subscribers.InlineSubscriptions
 //@ invariant s.inlineClient == old(s.inlineClient) && s.Clients != nil && s.Log != nil
 // verif:loop mqtt.Server.publishToSubscribers 2
+//@ entry C03-the-recipients-are-the-client-subscriptions-of-the-result: rangemap2 == subscribers.Subscriptions
 //@ invariant s.Clients != nil && s.Log != nil
 
 // verif:def validClPub(cl *Client) bool = validCl(cl) && cl.State.TopicAliases.Inbound != nil && cl.State.TopicAliases.Inbound.internal != nil
